@@ -78,6 +78,8 @@ def signals(rec):
                 v = ocp.variable(grid='bspline', order=d)
                 ocp.set_der(x, u)
                 dvs = ocp.der(v) if with_der else None      # requested before the first transcription
+                ddvs = ocp.der(dvs) if with_der and d >= 2 else None
+                mixed = ocp.der((x + v) * ocp.t) if with_der else None     # explicit time and a signal in one expression
                 ocp.add_objective(ocp.integral(u ** 2 + v ** 2))
                 ocp.subject_to(v <= 100)
                 ocp.solver('ipopt')
@@ -112,6 +114,15 @@ def signals(rec):
                     _, dv = quiet(ocp.sample, dvs, grid='integrator', refine=sub + 1)
                     got = list(ev(dv) * T)      # derivative in physical time = derivative in normalised time / T
                     res.append(('C17.b:der:' + tag,) + seq_compare(got, rec['dvalues']))
+                    if ddvs is not None:
+                        _, ddv = quiet(ocp.sample, ddvs, grid='integrator', refine=sub + 1)
+                        res.append(('C17.b:der2:' + tag,) + seq_compare(list(ev(ddv) * T * T), rec['ddvalues']))
+                    # d/dt[(x+v) t] = (x' + v') t + (x + v); at this probe x = u = 0, so it is v'(t) t + v(t)
+                    tk, mv = quiet(ocp.sample, mixed, grid='control')
+                    tkv = ev(tk); got = ev(mv)
+                    want = [fl(rec['dvalues'][j]) / T * tkv[i] + fl(rec['values'][j]) for i, j in enumerate(bp)]
+                    okm = len(got) == len(want) and all(abs(a - b_) <= 1e-9 * max(1, abs(b_)) for a, b_ in zip(got, want))
+                    res.append(('C16.a:der_time_signal:' + tag, 'ok' if okm else 'mismatch', 'der((x+v)*t) sampled %s expected %s' % (list(got)[:4], want[:4])))
             except Exception as e:
                 res.append(('C17.b:%s:%s' % ('der' if with_der else 'signal', tag), 'error', '%s: %s' % (type(e).__name__, (str(e).splitlines() or [''])[-1][:160])))
     # a bspline *parameter* in the ODE next to a global variable: explicit Euler gap rows
